@@ -878,6 +878,8 @@ func c06Run(c *wctx, slack int, next func(step int, bs [nVars]binding) (op, bool
 	prefix := fmt.Sprintf("SEQ F %d ", slack)
 	c.emit("B", prefix)
 	var encs, obs []string
+	var srcs, results, opNames []string // what ran, and what each statement printed: replayed UNOBSERVED below
+	var seen [][nVars]binding            // the bindings read after each statement
 	before := se.read()
 	sensitive := false
 	line := ""
@@ -896,6 +898,7 @@ func c06Run(c *wctx, slack int, next func(step int, bs [nVars]binding) (op, bool
 		}
 		res, panicked, errs := se.exec(o.src())
 		c.Eval()
+		srcs, results, opNames = append(srcs, o.src()), append(results, res), append(opNames, o.opName())
 		if panicked {
 			c.Fail("panic-"+o.opName(), line, fmt.Sprintf("step %d %q: %v", idx, o.src(), errs))
 		}
@@ -997,6 +1000,7 @@ func c06Run(c *wctx, slack int, next func(step int, bs [nVars]binding) (op, bool
 			res = "ok" // the value of such a statement (a function text, ...) is not part of the observation
 		}
 		obs = append(obs, strings.TrimSpace(res+" "+obsBindings(after)))
+		seen = append(seen, after)
 		before = after
 		tooBig := false
 		for v := 0; v < nVars; v++ {
@@ -1010,6 +1014,52 @@ func c06Run(c *wctx, slack int, next func(step int, bs [nVars]binding) (op, bool
 	}
 	if len(encs) == 0 {
 		return
+	}
+	// The same statements on a fresh state with NOTHING read in between (reading a name goes through Environment.Get,
+	// which an implementation may use as its signal that the value has been handed out): what every statement prints
+	// and every binding read once at the end must be what the observed run saw.
+	// The whole sequence, and two of its prefixes (a later statement may overwrite the binding that would tell).
+	cuts := []int{len(srcs)}
+	if n := len(srcs); n > 2 {
+		h := 0
+		for _, ch := range []byte(line) {
+			h = (h*31 + int(ch)) & 0xffffff
+		}
+		k1, k2 := 2+h%(n-2), 2+(h/97)%(n-2)
+		cuts = append(cuts, k1)
+		if k2 != k1 {
+			cuts = append(cuts, k2)
+		}
+	}
+	for _, k := range cuts {
+		un := newSession()
+		lastOp, ok := opNames[k-1], true
+		cutLine := prefix + strings.Join(encs[:k], ";")
+		for i, src := range srcs[:k] {
+			r, _, _ := un.exec(src)
+			c.Eval()
+			if r != results[i] {
+				c.Fail("unobserved-differs-result-"+opNames[i], prefix+strings.Join(encs[:i+1], ";"),
+					fmt.Sprintf("step %d %q prints %s when no binding is read between the statements, %s when all are", i, src, r, results[i]))
+				ok = false
+				break
+			}
+		}
+		if !ok {
+			break
+		}
+		final, want := un.read(), seen[k-1]
+		for v := 0; v < nVars; v++ {
+			if final[v].present != want[v].present || final[v].text != want[v].text {
+				c.Fail("unobserved-differs-"+reprName(want[v].kind)+"-"+lastOp, cutLine,
+					fmt.Sprintf("%s is %s after the last statement when no binding is read between the statements, %s when all are read after every statement", vname(v), final[v].text, want[v].text))
+				ok = false
+				break
+			}
+		}
+		if !ok {
+			break
+		}
 	}
 	for v := 0; v < nVars; v++ {
 		if before[v].present {
@@ -1149,6 +1199,56 @@ func corpus() [][]op {
 			raw("indexassign-equalvalue", "v0[1]=1.00", []int{0}, "v0[1]", "1.0"), raw("indexassign-equalvalue", "v0[2]=mkc(1)", []int{0}, "v0[2]()", "1"),
 			raw("indexassign-equalvalue", "v0[2]=mkc(2)", []int{0}, "v0[2]()", "2"), raw("indexassign-equalvalue", "v0[3]=-0.0", []int{0}, "v0[3]", "-0.0"),
 			raw("indexassign-equalvalue", "v0[3]=0.00", []int{0}, "v0[3]", "0.0"), raw("read", "v2=v1[1]", []int{2}, "v1[1]", "1")})
+	}
+	// VIEWS of a grown array (rest, [1:], [:n-1], rest of rest, first+rest, a + result that kept spare capacity), then +
+	// on the view and on the original, in both orders, and the original re-bound to its own + in between
+	for _, n := range []int{7, 8, 9, 10, 12} {
+		for grow := 0; grow <= 3; grow++ {
+			ln := int64(n + grow)
+			views := [][]op{
+				{P("RS", 1, 0, 0, 0, elem{})}, {P("SL", 1, 0, 1, ln, elem{})}, {P("SL", 1, 0, 0, ln-1, elem{})},
+				{P("RS", 1, 0, 0, 0, elem{}), P("RS", 1, 1, 0, 0, elem{})}, {P("SL", 1, 0, 2, ln, elem{})}, {P("PL", 1, 0, 0, 0, I(40))},
+				{P("RS", 6, 0, 0, 0, elem{}), P("RS", 1, 6, 0, 0, elem{})},
+			}
+			for _, view := range views {
+				pre := []op{arrLit(0, n)}
+				for g := 0; g < grow; g++ {
+					pre = append(pre, P("PL", 0, 0, 0, 0, I(int64(30+g))))
+				}
+				pre = append(pre, view...)
+				seq := func(tail ...op) []op { return append(append([]op{}, pre...), tail...) }
+				base = append(base,
+					seq(P("PL", 2, 1, 0, 0, I(77)), P("PL", 3, 0, 0, 0, I(88)), P("PL", 4, 1, 0, 0, I(66)), P("IS", 1, 0, 0, 0, I(55)), P("IS", 0, 0, -1, 0, I(54))),
+					seq(P("PL", 3, 0, 0, 0, I(88)), P("PL", 2, 1, 0, 0, I(77)), P("PL", 0, 0, 0, 0, I(11)), P("PL", 4, 1, 0, 0, I(99)), P("PL", 1, 1, 0, 0, I(12)), P("PL", 5, 0, 0, 0, I(13))),
+					seq(P("PL", 0, 0, 0, 0, I(11)), P("PL", 4, 1, 0, 0, I(99)), call(5, 1, 'f', "f", prim{kind: "PL", x: paramVar, y: paramVar, e: I(-1)}),
+						call(5, 0, 'l', "", prim{kind: "PL", x: paramVar, y: paramVar, e: I(-2)}), P("PL", 1, 1, 0, 0, V(0))))
+			}
+		}
+	}
+	// write - read THROUGH A CLOSURE - write: the copy is taken by a function that reads the variable as an outer variable
+	// (returned, stored in another global, stored inside a container); the name itself is not read in between - so these
+	// only tell in the unobserved replay of the sequence
+	for _, n := range []int{3, 8, 9, 12} {
+		for _, m := range []bool{false, true} {
+			lit := arrLit(0, n)
+			if m {
+				lit = mapLit(0, n/2+1) // 2, 5, 5, 7
+			}
+			takes := func(d int) []op { // v<d> is bound beforehand: a function body assigning it writes the outer variable
+				dn := vname(d)
+				return []op{
+					call(4, 2, 'f', "", prim{kind: "CP", x: d, y: 0}), call(4, 2, 'l', "f", prim{kind: "CP", x: d, y: 0}), call(4, 2, 'n', "", prim{kind: "CP", x: d, y: 0}),
+					raw("closurecopy", dn+"=func(){v0}()", []int{d}, "", ""), raw("closurecopy", dn+"=[0];func(){"+dn+"[0]=v0}()", []int{d}, "", ""),
+					raw("closurecopy", dn+"=func(){[v0,1]}()", []int{d}, "", ""), raw("closurecopy", dn+"=func(){{1:v0}}()", []int{d}, "", ""),
+					raw("closurecopy", "for 1{"+dn+"=func(){v0}()}", []int{d}, "", ""),
+				}
+			}
+			t1, t3 := takes(1), takes(3)
+			for i := range t1 {
+				base = append(base, []op{lit, arrLit(1, 1), arrLit(2, 1), arrLit(3, 1), P("IS", 0, 0, 1, 0, I(100)), t1[i], P("IS", 0, 0, 2, 0, I(200)), P("IS", 0, 0, 1, 0, I(300)),
+					t3[i], P("IS", 0, 0, 2, 0, I(400)), P("IN", 0, 0, 1, 0, elem{}), P("DL", 0, 0, 2, 0, elem{})})
+			}
+		}
 	}
 	base = append(base, []op{arrLit(5, 1), memoPlus(0, 1, V(5)), memoPlus(1, 1, V(5)), memoPlus(2, 1, I(6)), memoPlus(3, 2, I(7)), memoPlus(4, 1, I(8)),
 		P("IS", 0, 0, 0, 0, I(99)), memoPlus(6, 1, I(9))})
@@ -1783,8 +1883,22 @@ func forkArr(c *wctx) []op {
 	case 2:
 		ops = append(ops, op{kind: 'P', p: prim{kind: "ML", x: 1, kvs: []kv{{1, V(0)}}}})
 	}
+	srcVars := []int{0}
+	if c.R.Pct(40) && ln > 2 { // a VIEW of the base in v1: the derived values come from either
+		switch c.R.Intn(5) {
+		case 0, 1:
+			ops = append(ops, P("RS", 1, 0, 0, 0, elem{}))
+		case 2:
+			ops = append(ops, P("SL", 1, 0, int64(1+c.R.Intn(2)), int64(ln), elem{}))
+		case 3:
+			ops = append(ops, P("SL", 1, 0, 0, int64(ln-1), elem{}))
+		default:
+			ops = append(ops, P("RS", 1, 0, 0, 0, elem{}), P("RS", 1, 1, 0, 0, elem{}))
+		}
+		srcVars = []int{0, 1, 1}
+	}
 	derived := []int{2, 3, 4}[:2+c.R.Intn(2)]
-	if c.R.Pct(20) {
+	if c.R.Pct(20) && len(srcVars) == 1 {
 		// for v3=v4{v1=v2;v2=v0+v3}
 		ops = append(ops, op{kind: 'P', p: prim{kind: "AL", x: 4, es: ints(70, 2)}},
 			op{kind: 'P', p: prim{kind: "AL", x: 2}},
@@ -1798,17 +1912,18 @@ func forkArr(c *wctx) []op {
 				ops = append(ops, op{kind: 'P', p: prim{kind: "AL", x: tmp, es: ints(60+10*t, 1+c.R.Intn(3))}})
 				e = V(tmp)
 			}
+			sv := srcVars[c.R.Intn(len(srcVars))]
 			switch c.R.Intn(6) {
 			case 0, 1, 2:
-				ops = append(ops, P("PL", d, 0, 0, 0, e))
+				ops = append(ops, P("PL", d, sv, 0, 0, e))
 			case 3:
 				form, wrap := randWrap(c)
-				ops = append(ops, op{kind: 'C', a: d, b: 0, form: form, wrap: wrap, body: []prim{{kind: "PL", x: paramVar, y: paramVar, e: e}}})
+				ops = append(ops, op{kind: 'C', a: d, b: sv, form: form, wrap: wrap, body: []prim{{kind: "PL", x: paramVar, y: paramVar, e: e}}})
 			case 4:
 				form, wrap := randWrap(c)
-				ops = append(ops, op{kind: 'C', a: d, b: 0, form: form, wrap: wrap, body: []prim{{kind: "PL", x: paramVar, y: 0, e: e}}})
+				ops = append(ops, op{kind: 'C', a: d, b: sv, form: form, wrap: wrap, body: []prim{{kind: "PL", x: paramVar, y: sv, e: e}}})
 			default:
-				ops = append(ops, P("CP", d, 0, 0, 0, elem{}), P("PL", 0, 0, 0, 0, e))
+				ops = append(ops, P("CP", d, sv, 0, 0, elem{}), P("PL", sv, sv, 0, 0, e))
 			}
 		}
 	}
@@ -2494,6 +2609,78 @@ func c06LazyRefs(c *Ctx) {
 	}
 }
 
+// ---- write - read through a closure - write, with NOTHING observed in between: one program, one input; the values are
+// taken by closures (returned, stored in an outer variable, inside a map / array, through a recursive callee) and printed
+// once at the end. The container is a global or a local of a function; the expected copy is computed here.
+func c06Unobserved(c *Ctx) {
+	type shape struct {
+		name, src, afterFirst string
+	}
+	var shapes []shape
+	for _, n := range []int{3, 8, 9, 12, 17} {
+		p := make([]string, n)
+		for i := range p {
+			p[i] = strconv.Itoa(i)
+		}
+		p[0] = "100"
+		shapes = append(shapes, shape{fmt.Sprintf("array%d", n), fmt.Sprintf("0:%d", n), "[" + strings.Join(p, ",") + "]"})
+	}
+	for _, n := range []int{3, 4, 5, 7} {
+		p, q := make([]string, n), make([]string, n)
+		for i := range p {
+			p[i], q[i] = fmt.Sprintf("%d:%d", i, i), fmt.Sprintf("%d:%d", i, i)
+		}
+		q[0] = "0:100"
+		shapes = append(shapes, shape{fmt.Sprintf("map%d", n), "{" + strings.Join(p, ",") + "}", "{" + strings.Join(q, ",") + "}"})
+	}
+	takes := []struct{ name, decl, take, read string }{
+		{"getter", "get=func(){a}", "b=get()", "b"},
+		{"lambda", "get=()=>a", "b=get()", "b"},
+		{"snapshot", "b=0;snap=func(){b=a}", "snap()", "b"},
+		{"intomap", "m={};keep=()=>{m={\"k\":a}}", "keep()", "m.k"},
+		{"intoarray", "m=[0];keep=func(){m[0]=a}", "keep()", "m[0]"},
+		{"literal", "get=func(){[a,1]}", "b=get()", "b[0]"},
+		{"nested", "get=func(){func(){a}()}", "b=get()", "b"},
+		{"recursive", "get=func(n){if n==0{a}else{get(n-1)}}", "b=get(3)", "b"},
+		{"closurekept", "mk=func(){v=a;()=>v}", "g=mk()", "g()"},
+		{"plusnothing", "get=func(){a+[]}", "b=get()", "b"},
+	}
+	seconds := []string{"a[1]=200", "a[0]=300", "a[1]=200;a[2]=201", "for i=2{a[i]=400+i}", "bump=func(){a[1]=500};bump()"}
+	for _, sh := range shapes {
+		for _, t := range takes {
+			if t.name == "plusnothing" && strings.HasPrefix(sh.name, "map") {
+				continue
+			}
+			for _, second := range seconds {
+				for _, where := range []string{"global", "local"} {
+					body := fmt.Sprintf("a=%s;%s;a[0]=100;%s;%s;[a,%s]", sh.src, t.decl, t.take, second, t.read)
+					prog := "res=func(){" + body + "}()"
+					if where == "global" {
+						prog = body[:strings.LastIndex(body, ";")] + ";res=" + body[strings.LastIndex(body, ";")+1:]
+					}
+					se := newSession()
+					r, _, errs := se.exec(prog)
+					c.Eval()
+					line := "UNOBSERVED " + prog
+					if r == "err" {
+						c.Fail("harness-unparsable-statement", line, fmt.Sprint(errs))
+						continue
+					}
+					got, err := eval.EvalString(se.s, "res[1]", false)
+					if err != nil || got.Inspect() != sh.afterFirst {
+						g := "<error>"
+						if err == nil {
+							g = got.Inspect()
+						}
+						c.Fail("alias-unobserved-"+t.name+"-"+where+"-"+sh.name, line,
+							fmt.Sprintf("%s, taken after a[0]=100 and before %q, is %s at the end: expected %s", t.read, second, g, sh.afterFirst))
+					}
+				}
+			}
+		}
+	}
+}
+
 func runC06(c *Ctx) {
 	c.Rule = "sequences of bind / copy / index-assign / + element / + array / * / slice / rest / get / map set / merge / del / " +
 		"element increment / store into another container / call mutating its parameter and OUTER variables (func, lambda, named function; " +
@@ -2508,9 +2695,10 @@ func runC06(c *Ctx) {
 		f := strings.Fields(c.ReplayCase)
 		if len(f) == 4 && f[0] == "SEQ" {
 			runJobs(c, []job{{kind: "replay", from: 0, to: 1, replay: c.ReplayCase}})
-		} else if len(f) > 0 && (f[0] == "HANDED" || f[0] == "LAZY") { // direct phases: cheap, replayed as a whole
+		} else if len(f) > 0 && (f[0] == "HANDED" || f[0] == "LAZY" || f[0] == "UNOBSERVED") { // direct phases: cheap, replayed as a whole
 			c06HandedOut(c)
 			c06LazyRefs(c)
+			c06Unobserved(c)
 		} else {
 			fmt.Println("bad replay case")
 		}
@@ -2518,6 +2706,7 @@ func runC06(c *Ctx) {
 	}
 	c06HandedOut(c)
 	c06LazyRefs(c)
+	c06Unobserved(c)
 	jobs := split("corpus", 0, len(corpus()), 100, 0, 0)
 	if os.Getenv("C06_CORPUS_ONLY") != "" { // reproduction of the recorded defects on a pre-repair tree
 		runJobs(c, jobs)
